@@ -174,10 +174,24 @@ Proof.
   eapply perm_trans; [apply perm_skip, IH | apply perm_swap].
 Qed.
 
+(* [sort_by] inserts from left to right: the last element is inserted last *)
+Lemma sort_by_snoc : forall A K (key : A -> K) ltb l x,
+  sort_by key ltb (l ++ [x]) = insert key ltb x (sort_by key ltb l).
+Proof. intros A K key ltb l x. unfold sort_by. rewrite fold_left_app. reflexivity. Qed.
+
+Lemma sort_by_nil : forall A K (key : A -> K) ltb, sort_by key ltb [] = [].
+Proof. reflexivity. Qed.
+
+Lemma sort_by_fold_right : forall A K (key : A -> K) ltb l,
+  sort_by key ltb l = fold_right (insert key ltb) [] (rev l).
+Proof. intros A K key ltb l. unfold sort_by. rewrite <- fold_left_rev_right. reflexivity. Qed.
+
 Lemma sort_by_perm : forall A K (key : A -> K) ltb l, Permutation (sort_by key ltb l) l.
 Proof.
-  intros A K key ltb l. unfold sort_by. induction l as [|x xs IH]; cbn [fold_right]; auto.
-  eapply perm_trans; [apply insert_perm | apply perm_skip, IH].
+  intros A K key ltb l. induction l as [|x xs IH] using rev_ind; [apply perm_nil|].
+  rewrite sort_by_snoc.
+  eapply perm_trans; [apply insert_perm |].
+  eapply perm_trans; [apply perm_skip, IH | apply Permutation_cons_append].
 Qed.
 
 (* sorting by a key is sorting the keys *)
@@ -194,8 +208,8 @@ Qed.
 Lemma map_key_sort : forall A K (key : A -> K) ltb l,
   map key (sort_by key ltb l) = sort_by idk ltb (map key l).
 Proof.
-  intros A K key ltb l. unfold sort_by. induction l as [|x xs IH]; cbn [fold_right map]; auto.
-  rewrite map_key_insert, IH. reflexivity.
+  intros A K key ltb l. induction l as [|x xs IH] using rev_ind; [reflexivity|].
+  rewrite map_app. cbn [map]. rewrite !sort_by_snoc, map_key_insert, IH. reflexivity.
 Qed.
 
 Section SortK.
@@ -228,7 +242,11 @@ Section SortK.
 
   Lemma sortK_perm l1 l2 : Permutation l1 l2 -> sort_by idk ltb l1 = sort_by idk ltb l2.
   Proof.
-    unfold sort_by. induction 1 as [|x l l' _ IH|x y l|l l' l'' _ IH1 _ IH2]; cbn [fold_right].
+    intros HP. rewrite !sort_by_fold_right.
+    assert (HR : Permutation (rev l1) (rev l2)).
+    { eapply perm_trans; [apply Permutation_sym, Permutation_rev|].
+      eapply perm_trans; [exact HP|apply Permutation_rev]. }
+    clear HP. induction HR as [|x l l' _ IH|x y l|l l' l'' _ IH1 _ IH2]; cbn [fold_right].
     - reflexivity.
     - rewrite IH. reflexivity.
     - apply insertK_comm.
@@ -266,9 +284,9 @@ Lemma sort_by_sorted : forall A K (key : A -> K) (ltb : K -> K -> bool),
   (forall a b c, ltb a b = true -> ltb b c = true -> ltb a c = true) ->
   forall l, Sorted (fun x y => ltb (key y) (key x) = false) (sort_by key ltb l).
 Proof.
-  intros A K key ltb I T l. unfold sort_by.
-  induction l as [|x xs IH]; cbn [fold_right]; [constructor|].
-  generalize dependent (fold_right (insert key ltb) [] xs). clear xs.
+  intros A K key ltb I T l.
+  induction l as [|x xs IH] using rev_ind; [constructor|]. rewrite sort_by_snoc.
+  generalize dependent (sort_by key ltb xs). clear xs.
   intros l HS. induction HS as [|y ys HSys IHys Hd]; cbn [insert].
   - constructor; constructor.
   - destruct (ltb (key x) (key y)) eqn:Exy.
